@@ -14,7 +14,7 @@ import z3
 
 from pyvc import sym
 from pyvc.sym import lift
-from pyvc.oblig import obligation, verify, exhaustive, bounded, Goal
+from pyvc.oblig import obligation, verify, exhaustive, bounded, Goal, Inapplicable
 from pyvc.interp import PyRaise
 from .common import stable_rng, quick
 
@@ -224,7 +224,7 @@ def ob_fs_inductive():
             frame = {"_n", "_fc", "_C"}
             extra = set(o.fields) - frame - {"sigma_shadow", "use_shadow_bool", "handle_small_distances_bool"}
             if extra:
-                return [Goal("state outside the contract frame: %s (contract needs updating)" % sorted(extra), False)]
+                raise Inapplicable("state outside the contract frame: %s" % sorted(extra))
             for f in frame:
                 o.fields[f] = c.var("s_%s_%s" % (which, f), "real")
             c.assume((o.fields["_n"] > 0) & (o.fields["_fc"] > 0))
